@@ -33,6 +33,14 @@ type Spec struct {
 	Args       map[string][]string `json:"args"` // per tier
 	Env        map[string]string   `json:"env"`
 	BuildFlags []string            `json:"build_flags"`
+	// Parts: the check consists of several harness runs (each with VERIF_PART=<name>) whose evidence is merged.
+	// A part with an empty "use" is this spec's own harness.
+	Parts []Part `json:"parts"`
+}
+
+type Part struct {
+	Name string `json:"name"`
+	Use  string `json:"use"`
 }
 
 var (
@@ -50,6 +58,138 @@ func envOr(k, d string) string {
 func die(code int, f string, a ...any) {
 	fmt.Fprintf(os.Stderr, "vx: "+f+"\n", a...)
 	os.Exit(code)
+}
+
+func readSpec(id string) *Spec {
+	b, err := os.ReadFile(filepath.Join(verifDir, "harness", id, "harness.json"))
+	if err != nil {
+		die(2, "no harness for %s: %v", id, err)
+	}
+	var s Spec
+	if err := json.Unmarshal(b, &s); err != nil {
+		die(2, "harness/%s/harness.json: %v", id, err)
+	}
+	return &s
+}
+
+// buildSpecOf returns the build description of one part of s.
+func buildSpecOf(s *Spec, p Part) *Spec {
+	if p.Use != "" {
+		return readSpec(p.Use)
+	}
+	if s.Use != "" {
+		return readSpec(s.Use)
+	}
+	return s
+}
+
+// mergeParts combines evidence/.parts/<id>.<part>.json into evidence/<id>.json: counts are added, exhaustive is
+// the conjunction, rules/samples/assumptions are concatenated, everything else is kept per part.
+func mergeParts(s *Spec) {
+	var merged map[string]any
+	cov := map[string]any{}
+	perPart := map[string]any{}
+	var rules []string
+	var samples, caps, known, viols []any
+	var assumptions []any
+	seenAss := map[string]bool{}
+	exhaustive := true
+	var wall float64
+	var violations int64
+	addList := func(dst *[]any, v any) {
+		if l, ok := v.([]any); ok {
+			*dst = append(*dst, l...)
+		}
+	}
+	for _, p := range s.Parts {
+		raw, err := os.ReadFile(filepath.Join(verifDir, "evidence", ".parts", s.ID+"."+p.Name+".json"))
+		if err != nil {
+			die(2, "part %s of %s left no evidence: %v", p.Name, s.ID, err)
+		}
+		var ev map[string]any
+		dec := json.NewDecoder(strings.NewReader(string(raw)))
+		dec.UseNumber()
+		if err := dec.Decode(&ev); err != nil {
+			die(2, "evidence of part %s: %v", p.Name, err)
+		}
+		if merged == nil {
+			merged = ev
+		}
+		if w, ok := ev["wall_s"].(json.Number); ok {
+			f, _ := w.Float64()
+			wall += f
+		}
+		if v, ok := ev["violations"].(json.Number); ok {
+			n, _ := v.Int64()
+			violations += n
+		}
+		if l, ok := ev["assumptions"].([]any); ok {
+			for _, a := range l {
+				if !seenAss[fmt.Sprint(a)] {
+					seenAss[fmt.Sprint(a)] = true
+					assumptions = append(assumptions, a)
+				}
+			}
+		}
+		c, _ := ev["coverage"].(map[string]any)
+		own := map[string]any{}
+		for k, v := range c {
+			switch k {
+			case "exhaustive":
+				if b, ok := v.(bool); !ok || !b {
+					exhaustive = false
+				}
+				own[k] = v
+			case "rule":
+				rules = append(rules, "["+p.Name+"] "+fmt.Sprint(v))
+			case "samples":
+				addList(&samples, v)
+			case "caps_hit":
+				addList(&caps, v)
+			case "known_findings_hit":
+				addList(&known, v)
+			case "violation_signatures":
+				addList(&viols, v)
+			default:
+				if n, ok := v.(json.Number); ok {
+					if i, err := n.Int64(); err == nil {
+						old, _ := cov[k].(int64)
+						cov[k] = old + i
+						own[k] = v
+						continue
+					}
+				}
+				own[k] = v
+			}
+		}
+		perPart[p.Name] = own
+	}
+	cov["exhaustive"] = exhaustive
+	cov["rule"] = strings.Join(rules, " || ")
+	if samples == nil {
+		samples = []any{}
+	}
+	cov["samples"] = samples
+	if known == nil {
+		known = []any{}
+	}
+	cov["known_findings_hit"] = known
+	if len(caps) > 0 {
+		cov["caps_hit"] = caps
+	}
+	if len(viols) > 0 {
+		cov["violation_signatures"] = viols
+	}
+	cov["parts"] = perPart
+	merged["coverage"] = cov
+	merged["assumptions"] = assumptions
+	merged["wall_s"] = float64(int(wall*100)) / 100
+	merged["violations"] = violations
+	b, _ := json.MarshalIndent(merged, "", " ")
+	if err := os.WriteFile(filepath.Join(verifDir, "evidence", s.ID+".json"), append(b, '\n'), 0o644); err != nil {
+		die(2, "%v", err)
+	}
+	fmt.Printf("[%s merged] parts=%d evaluations=%v distinct_nontrivial=%v exhaustive=%v violations=%d\n", s.ID, len(s.Parts), cov["evaluations"], cov["distinct_nontrivial"], exhaustive, violations)
 }
 
 func loadSpec(id string) (*Spec, *Spec) {
@@ -140,14 +280,16 @@ func build(b *Spec) string {
 	return bin
 }
 
-func run(s *Spec, bin, tier string, extra []string) int {
+func run(s *Spec, bin, tier string, extra []string) int { return runPart(s, bin, tier, "", extra) }
+
+func runPart(s *Spec, bin, tier, part string, extra []string) int {
 	args := append([]string{}, s.Args[tier]...)
 	args = append(args, extra...)
 	cmd := exec.Command(bin, args...)
 	cmd.Dir = verifDir
 	cmd.Stdout = os.Stdout
 	cmd.Stderr = os.Stderr
-	cmd.Env = append(os.Environ(), "VERIF_DIR="+verifDir, "VERIF_REPO="+repoDir, "VERIF_TIER="+tier, "VERIF_ID="+s.ID)
+	cmd.Env = append(os.Environ(), "VERIF_DIR="+verifDir, "VERIF_REPO="+repoDir, "VERIF_TIER="+tier, "VERIF_ID="+s.ID, "VERIF_PART="+part)
 	for k, v := range s.Env {
 		cmd.Env = append(cmd.Env, k+"="+v)
 	}
@@ -180,12 +322,39 @@ func main() {
 	switch os.Args[1] {
 	case "check":
 		s, b := loadSpec(os.Args[2])
+		if len(s.Parts) > 0 {
+			os.RemoveAll(filepath.Join(verifDir, "evidence", ".parts", s.ID+".*"))
+			worst := 0
+			for _, p := range s.Parts {
+				t0 := time.Now()
+				pb := buildSpecOf(s, p)
+				bin := build(pb)
+				fmt.Fprintf(os.Stderr, "vx: built %s harness (part %s) in %.1fs\n", pb.ID, p.Name, time.Since(t0).Seconds())
+				os.Remove(filepath.Join(verifDir, "evidence", ".parts", s.ID+"."+p.Name+".json"))
+				code := runPart(s, bin, tier, p.Name, rest)
+				if code == 1 || (code != 0 && worst != 1) {
+					worst = code
+				}
+				if code > 1 {
+					// a part that broke left no trustworthy evidence: nothing to merge
+					os.Exit(code)
+				}
+			}
+			mergeParts(s)
+			os.Exit(worst)
+		}
 		t0 := time.Now()
 		bin := build(b)
 		fmt.Fprintf(os.Stderr, "vx: built %s harness in %.1fs\n", b.ID, time.Since(t0).Seconds())
 		os.Exit(run(s, bin, tier, rest))
 	case "build":
-		_, b := loadSpec(os.Args[2])
+		s, b := loadSpec(os.Args[2])
+		if len(s.Parts) > 0 {
+			for _, p := range s.Parts {
+				build(buildSpecOf(s, p))
+			}
+			return
+		}
 		build(b)
 	case "instrument":
 		_, b := loadSpec(os.Args[2])
@@ -200,6 +369,7 @@ func main() {
 		var f struct {
 			Property string `json:"property"`
 			Tier     string `json:"tier"`
+			Part     string `json:"part"`
 		}
 		if err := json.Unmarshal(raw, &f); err != nil || f.Property == "" {
 			die(2, "not a replay file: %s", path)
@@ -208,9 +378,14 @@ func main() {
 			tier = f.Tier
 		}
 		s, b := loadSpec(f.Property)
+		for _, p := range s.Parts {
+			if p.Name == f.Part {
+				b = buildSpecOf(s, p)
+			}
+		}
 		bin := build(b)
 		abs, _ := filepath.Abs(path)
-		os.Exit(run(s, bin, tier, []string{"--replay", abs}))
+		os.Exit(runPart(s, bin, tier, f.Part, []string{"--replay", abs}))
 	default:
 		die(2, "unknown command %q", os.Args[1])
 	}
